@@ -259,6 +259,11 @@ def check_C04(tier):
         enc_gen_replay(rep, "stereo_pool%d" % k, alpha, "default", n - q, quick=quick, own=own)
     corpus_trace(rep, "stereo", quick, own, [relaxed_table()], per_file=(40 if quick else 800),
                  variants=(3 if quick else 6), flt=has_stereo)
+    # strict=False takes the same path through the stereo code
+    enc_gen_replay(rep, "stereo_rings_lax", ["[C@]", "[C@@H]", "C", "1", "2", "3", "(", ")", "F", "N", "/C", "=C"], "default",
+                   n + 1 - q, strict=False, quick=quick, own=own, invariants=["SameSenseV", "SameMarksV", "TwoOutcomes"])
+    corpus_trace(rep, "stereo_lax", quick, own, [relaxed_table()], per_file=(15 if quick else 300),
+                 variants=(2 if quick else 4), flt=has_stereo, strict=False)
     rep.exhaustive = True
     return rep.finish()
 
